@@ -8,7 +8,7 @@ export GOFLAGS=-mod=mod GOPROXY=off GOSUMDB=off GOTOOLCHAIN=local
 cd "$(dirname "$0")/.." || exit 2
 V=$PWD
 docheck=""; [ "$1" = "check" ] && { docheck=1; shift; }
-ids="$@"; [ -z "$ids" ] && ids=$(ls seeded | grep -v README)
+ids="$@"; [ -z "$ids" ] && ids=$(ls seeded | grep -v README | grep -v "^_")
 wt=/tmp/vf-seeded-$$
 git -C /repo worktree add --detach $wt HEAD >/dev/null 2>&1 || exit 2
 trap 'git -C /repo worktree remove --force '$wt' >/dev/null 2>&1' EXIT
